@@ -41,6 +41,8 @@ def run(ctx):
     r = ctx.rule("R-NUM-ALPHABET", "radix-10 number reader accepts the continuation bytes of printed numbers")
     roundtrip.number_alphabet(r, lexpr)
     casts(ctx.rule("R-CAST", "lossy numeric casts in the number scanner and Number are the reviewed ones"), lexpr)
+    int_boundary(ctx.rule("R-INT-BOUNDARY", "parse_num_tail stores boundary magnitudes as the exact integer: "
+                                            "[-2^63, 2^64-1] stays an integer, beyond that a float"), lexpr)
     if ctx.tier == "quick":
         # the sibling variant is part of the claim: check it in quick as well when its facts are cheap to get
         db2 = ctx.facts(["nofast"])
@@ -203,6 +205,47 @@ def pow10(r, crate):
             r.ok("f64_from_parts looks POW10 up with slice::get (no out-of-range index)", fn)
         else:
             r.violation(fn.path, "pow10-lookup", "f64_from_parts no longer looks POW10 up through slice::get", fn.loc())
+
+
+def int_boundary(r, crate):
+    """Constant propagation of the 64-bit boundary magnitudes through the sign/representation logic."""
+    from .. import lex, sim
+    from ..sim import Adt
+    f = crate.fn("parse::Parser::<R>::parse_num_tail")
+    if f is None:
+        r.anchor_missing("parse::Parser::<R>::parse_num_tail")
+        return
+    nv = {x["name"]: x["idx"] for x in crate.adts["number::N"]["variants"]}
+    inl = lambda a, b: b.path in lex.WRAPPERS or b.file.endswith("number.rs")
+    n = 0
+    for mag in (0, 1, (1 << 63) - 1, 1 << 63, (1 << 63) + 1, (1 << 64) - 1):
+        for pos in (1, 0):
+            n += 1
+            S = sim.Sim([crate], hooks={"call": lex.seq_hook([0x20])}, inline=inl, max_paths=2000)
+            outs = set()
+            for p in S.run(f, args={2: 10, 3: pos, 4: mag}):
+                v = p.ret
+                if p.end == "return" and isinstance(v, Adt) and v.variant == 0 and isinstance(v.fields[0], Adt) \
+                        and v.fields[0].fields and isinstance(v.fields[0].fields[0], Adt):
+                    nn = v.fields[0].fields[0]
+                    outs.add((nn.variant, nn.fields[0] if nn.fields and isinstance(nn.fields[0], int) else None))
+                else:
+                    outs.add(("?", p.end))
+            val = mag if pos else -mag
+            if val >= 0 and val <= (1 << 64) - 1:
+                want = {(nv["PosInt"], val)}
+            elif -(1 << 63) <= val < 0:
+                want = {(nv["NegInt"], val)}
+            else:
+                want = {(nv["Float"], None)}
+            lit = "%s%d" % ("" if pos else "-", mag)
+            if outs == want:
+                r.ok("literal %s -> %s" % (lit, "PosInt" if val >= 0 else ("NegInt" if val >= -(1 << 63) else "Float")), f)
+            else:
+                r.violation(f.path, "int-boundary:%s" % lit,
+                            "the literal %s is stored as %s instead of %s: an integer inside [-2^63, 2^64-1] must stay "
+                            "exactly that integer, one outside becomes a float" % (lit, sorted(outs, key=repr), sorted(want, key=repr)), f.loc())
+    r.floor("boundary-cases", n)
 
 
 LOSSY = {("u64", "i64"), ("i64", "u64"), ("u64", "f64"), ("i64", "f64"), ("u64", "u8"), ("u32", "u8"), ("i32", "usize"),
